@@ -23,6 +23,7 @@ EXPLANATION = (
 EXPLANATION += (' Added after the audit wave: C17.7 t_opt is searched midway between the two crossing times; C17.8 the boundary between the ON and OFF populations is computed from the level estimates and is not an element of the record; C17.9 the populations are drawn from every slot of the folded trace (no single sub-slot window on an axis that folds two slots).')
 EXPLANATION += (' Second audit wave: C17.10 the instants handed to the crossing clustering carry a reduction of the time axis modulo the slot.')
 EXPLANATION += (' Third audit wave: C17.12 mu0 < threshold < mu1 structurally: every alternative of the stored threshold is an element of linspace(mu0, mu1, n) taken under 0 < index < n-1 (grids nested between interior points and grids cut with [1:-1] are followed), or the midpoint of the levels, or None. C17.6 now also accepts a record cut to whole slots and continued by its first slot when the slot count is odd (the test of the parity is read from the recorded branch condition).')
+EXPLANATION += (' Fourth audit wave: C17.13 the first split of the samples into an upper and a lower population (the boundary handed to shortest_int) comes from two clusters STARTED at the minimum and the maximum of the record (init= built from min and max), or is a mid-range value - never the global least-squares 2-means partition with random starts, which halves the noise cloud of one level when the other holds a handful of samples (3 ones in 4096 slots at 5 % noise: mu1 = 0.04 for a level at 1).')
 TRUSTED = ["sklearn KMeans / scipy gaussian_kde / resample are equivariant under a common affine map of homogeneous data", "numpy semantics of mean/std/unique/roll"]
 
 F0, F1 = Fraction(0), Fraction(1)
@@ -790,18 +791,61 @@ def rule_every_slot(ctx, rule):
             ctx.holds(rule, fi, rets[0].node, label, "windows on the centred slot-periodic distance" if found.get("centred") else ("one slot per trace" if k == 1 else "no time window on a multi-slot trace"))
 
 
-def _threshold_alternatives(v, guards=()):
+def _negated_parts(c):
+    """conjuncts that hold when the condition c is false: not (p or q) = not p and not q, with the comparisons turned round"""
+    a = c.single_atom() if isinstance(c, Form) else None
+    parts = list(a[2]) if (a and a[0] == "fn" and a[1] == "or") else [c]
+    out = []
+    for p_ in parts:
+        pa = p_.single_atom() if isinstance(p_, Form) else None
+        if not (pa and pa[0] == "fn" and len(pa[2]) == 2 and pa[1] in ("gt", "ge", "eq", "ne")):
+            return []
+        x, y = pa[2]
+        out.append(mk_fn({"gt": "ge", "ge": "gt", "eq": "ne", "ne": "eq"}[pa[1]], [y, x] if pa[1] in ("gt", "ge") else [x, y]))
+    return out
+
+
+def _if_guards(a, where):
+    """for a two-way merge made by an `if` STATEMENT: {index of the alternative: conditions it is stored under}.  The statement is the
+    If at the merge's line; which alternative belongs to its body is told by the kind of value stored there (a grid element or not)"""
+    if where is None or len(a[2]) != 2 or "@" not in a[1]:
+        return {}
+    fi, it = where
+    try:
+        line = int(a[1].rsplit("@", 1)[1])
+    except ValueError:
+        return {}
+    node = next((n for n in ast.walk(fi.node) if isinstance(n, ast.If) and n.lineno == line), None)
+    cf = getattr(it, "cond_forms", {}).get(src_of(node.test)) if node is not None else None
+    if cf is None:
+        return {}
+    def stores_element(block):
+        return any(isinstance(st_, ast.Assign) and isinstance(st_.value, ast.Subscript) for st_ in block)
+    is_elem = [bool((x.single_atom() or ("",))[0] == "idx") if isinstance(x, Form) else False for x in a[2]]
+    if stores_element(node.body) == stores_element(node.orelse) or is_elem[0] == is_elem[1]:
+        return {}
+    ca = cf.single_atom()
+    then_guards = tuple(ca[2]) if (ca and ca[0] == "fn" and ca[1] == "and") else (cf,)
+    else_guards = tuple(_negated_parts(cf))
+    out = {}
+    for i_, e_ in enumerate(is_elem):
+        out[i_] = then_guards if e_ == stores_element(node.body) else else_guards
+    return out
+
+
+def _threshold_alternatives(v, guards=(), where=None):
     """(value, conditions under which it is taken) for every alternative of a merged / conditional value"""
     a = v.single_atom() if isinstance(v, Form) else None
     if a and a[0] == "phi" and isinstance(v, Form) and v == Form.atom(a):
-        for x in a[2]:
-            yield from _threshold_alternatives(x, guards)
+        extra = _if_guards(a, where)
+        for i_, x in enumerate(a[2]):
+            yield from _threshold_alternatives(x, guards + tuple(extra.get(i_, ())), where)
     elif a and a[0] == "fn" and a[1] == "ifexp" and len(a[2]) == 3 and v == Form.atom(a):
         c = a[2][0]
         ca = c.single_atom() if isinstance(c, Form) else None
         conj = list(ca[2]) if (ca and ca[0] == "fn" and ca[1] == "and") else [c]
-        yield from _threshold_alternatives(a[2][1], guards + tuple(conj))
-        yield from _threshold_alternatives(a[2][2], guards)          # the negation is not used: the else value must stand by itself
+        yield from _threshold_alternatives(a[2][1], guards + tuple(conj), where)
+        yield from _threshold_alternatives(a[2][2], guards + ("else",), where)          # the negation is not used: the else value must stand by itself
     else:
         yield v, guards
 
@@ -832,6 +876,7 @@ def _strictly_between(v, guards, mu0, mu1, depth=0):
         closed = not [1 for k_, _v in g[3] if k_ == "endpoint"]
         ns = [mk_fn("len", [G]), Form.atom(("attr", G, "size")), mk_fn("size", [G])] + ([g[2][2]] if len(g[2]) > 2 and isinstance(g[2][2], Form) else [Form.num(50)])
         zero, one = Form.num(0), Form.num(1)
+        guards = [c for c in guards if isinstance(c, Form)]
         lower = any(c == mk_fn("gt", [i, zero]) or c == mk_fn("ge", [i, one]) or c == mk_fn("ne", [i, zero]) for c in guards)
         upper = any(c == mk_fn("gt", [n - 1, i]) or c == mk_fn("ge", [n - 2, i]) or c == mk_fn("ne", [i, n - 1]) or c == mk_fn("gt", [n, i + 1]) for n in ns for c in guards)
         return ("grid", bool(lower and upper and closed), "" if not (lower or upper) else " on both sides")
@@ -851,6 +896,7 @@ def rule_threshold_interior(ctx, rule):
     fi = pkg.func("devices.GET_EYE")
     label = "GET_EYE: threshold strictly between the two levels"
     it = Interp(pkg, param_classes={"input": "electrical_signal"}, assumptions={"input.noise": "none", "sps_resamp": ("truth", True)}, no_inline=("shortest_int",))
+    it.keep_cond_forms = True
     rets = [o for o in it.run(fi) if o.kind == "return" and isinstance(o.value, ObjV)]
     if len(rets) != 1:
         ctx.unknown(rule, fi, fi.node, label, f"{len(rets)} return paths")
@@ -861,9 +907,23 @@ def rule_threshold_interior(ctx, rule):
         ctx.unknown(rule, fi, rets[0].node, label, "fields mu0 / mu1 / threshold not identified")
         return
     n_alt = 0
-    for v, guards in _threshold_alternatives(thr):
+    for v, guards in _threshold_alternatives(thr, (), (fi, it)):
         if isinstance(v, Const) and v.v is None:
-            continue                                  # "no estimate": the receivers fall back on THRESHOLD_EST
+            # "no estimate": the receivers fall back on THRESHOLD_EST.  When that is not the estimator failing (the except path) but a
+            # branch of the selection itself - the end-point case - the fallback runs on exactly the eyes that produce it: a level
+            # seen through ONE sample has s = 0, the Gaussian cost is nan at that level, and a plain argmin returns the index of the
+            # nan: the threshold is the level again.  The fallback has to ignore undefined entries then.
+            if "else" in guards:
+                from .c13 import fallback_nan_safe
+                safe = fallback_nan_safe(ctx.pkg)
+                if safe is None:
+                    ctx.unknown(rule, fi, rets[0].node, label + " [no estimate in the end-point case]", "minimiser of ppm.THRESHOLD_EST not identified")
+                else:
+                    ctx.check(rule, safe, fi, rets[0].node, label + " [no estimate in the end-point case]", "the fallback estimator ignores undefined cost entries",
+                              "when the density has no interior minimum the threshold is None and ppm.DSP falls back on ppm.THRESHOLD_EST, whose plain argmin returns the index of a nan: "
+                              "with ONE sample in the ON level (one PPM symbol) s1 = 0, the cost is nan at r = mu1 and the threshold is mu1 - no slot exceeds it, HDD raises a random one "
+                              "(bits 01, M = 4, sps 16: hard decision 00)")
+            continue
         n_alt += 1
         verdict = _strictly_between(v, guards, mu0, mu1)
         if verdict is not None and verdict[0] == "grid":
@@ -878,6 +938,50 @@ def rule_threshold_interior(ctx, rule):
             ctx.unknown(rule, fi, rets[0].node, label, f"alternative {short(v, 160)} not recognised")
     if not n_alt:
         ctx.unknown(rule, fi, rets[0].node, label, "no estimate is ever stored")
+
+
+def rule_level_split(ctx, rule):
+    """mu0, mu1 within 8 % of the levels for EVERY pattern with both symbols present: the first thing GET_EYE does is split the samples
+    into an upper and a lower population around `vm`.  Taken as the mean of the two centres of a least-squares 2-means fit with random
+    starts, `vm` follows the global optimum - and when one level holds only a few samples (3 ones in 4096 slots at sigma = 5 %) the
+    cheaper partition halves the noise cloud of the OTHER level: both populations then come from one level and mu1 lands on mu0.  The
+    split has to start from the extremes of the record (k-means initialised at min and max with a single start, or a mid-range value)"""
+    pkg = ctx.pkg
+    fi = pkg.func("devices.GET_EYE")
+    label = "GET_EYE: first split of the samples into the two level populations"
+    it = Interp(pkg, param_classes={"input": "electrical_signal"}, assumptions={"input.noise": "none", "sps_resamp": ("truth", False)}, no_inline=("shortest_int",))
+    rets = [o for o in it.run(fi) if o.kind == "return" and isinstance(o.value, ObjV)]
+    top = rets[0].value.fields.get("top_int") if len(rets) == 1 else None
+    vm = None
+    if isinstance(top, Form):
+        for a in top.atoms():
+            if a[0] == "fn" and a[1] in ("gt", "ge") and len(a[2]) == 2 and all(isinstance(x, Form) for x in a[2]):
+                y = rets[0].value.fields.get("y")
+                other = [x for x in a[2] if not (isinstance(y, Form) and x == y)]
+                if len(other) == 1:
+                    vm = other[0]
+                    break
+    if vm is None:
+        ctx.unknown(rule, fi, fi.node, label, "boundary of the upper population (argument of shortest_int) not identified")
+        return
+    fits = [a for a in vm.atoms() if a[0] == "fn" and a[1].split(".")[-1] == "KMeans"]
+    names = {a[1].split(".")[-1] for a in vm.atoms() if a[0] == "fn"} | {a[2] for a in vm.atoms() if a[0] == "meth"}
+    if not fits:
+        ok = {"min", "max"} <= names or {"amin", "amax"} <= names or "ptp" in names
+        if ok:
+            ctx.holds(rule, fi, rets[0].node, label, "a mid-range value of the record")
+        else:
+            ctx.unknown(rule, fi, rets[0].node, label, f"boundary {short(vm, 140)} not recognised (neither a clustering nor a mid-range value)")
+        return
+    for a in fits:
+        kw = dict(a[3])
+        init = kw.get("init")
+        inames = ({x[1].split(".")[-1] for x in init.atoms() if x[0] == "fn"} | {x[2] for x in init.atoms() if x[0] == "meth"}) if isinstance(init, Form) else set()
+        seeded = isinstance(init, Form) and ({"min", "max"} <= inames or {"amin", "amax"} <= inames)
+        ctx.check(rule, seeded, fi, rets[0].node, label, "two clusters started at the minimum and the maximum of the record",
+                  "the boundary is the mean of the centres of a 2-means fit with random starts (the global least-squares partition): with 3 ones in 4096 slots and sigma = 5 % of the eye the "
+                  "optimum splits the noise cloud of the zero level in two (centres at -0.04 and +0.04) - GET_EYE returns mu0 = -0.039, mu1 = 0.041, threshold 0.001, all finite, nothing "
+                  "signals it; it happens whenever the minority fraction is below about 0.8 (sigma/(b-a))^2")
 
 
 def rule_periodic_crossings(ctx, rule):
@@ -1204,4 +1308,5 @@ def run(ctx):
     ctx.require_min("C17.10", 2)
     rule_sampling_index(ctx, "C17.11")
     rule_threshold_interior(ctx, "C17.12")
+    rule_level_split(ctx, "C17.13")
     ctx.require_min("C17.11", 2)
